@@ -550,6 +550,9 @@ def grid_cases(rng, n, quick=True):
 
 
 def is_bulk(c):
+    # (other modules, e.g. c11, call certifiable() on cases of their own shape: no "dgm" key means "not a bulk case of C04")
+    if "dgm" not in c or "pixel_size" not in c or "birth_range" not in c or "pers_range" not in c:
+        return False
     if len(c["dgm"]) > BULK_LIMIT_PTS:
         return True
     ps = c["pixel_size"]
